@@ -816,8 +816,9 @@ func c10AbePolicyStrings() []kit.Named {
 		{"and-chain-2000", []byte("a:b" + rep(" and a:b", 2000))}, {"or-chain-2000", []byte("a0:b" + rep(" or c:d", 2000))},
 		{"mixed-chain-1000", []byte("a:b" + rep(" and (c:d or not e:f)", 1000))}, {"colons-10000", []byte(rep(":", 10000))}, {"bad-chars-10000", []byte(rep("#", 10000))},
 		{"not-chain-with-wires", []byte("a:b" + rep(" and x:y", 300) + " and " + rep("not ", 3000) + "c:d")},
-		// recursion depth: ~1.6 kB of stack per '(' and ~0.6 kB per "not" in the recursive-descent parser
-		{"deep-parens-500000", []byte(rep("(", 500000))}, {"not-1000000", []byte(rep("not ", 1000000))},
+		// recursion depth: >= 1.07 kB of stack per '(' and >= 0.54 kB per "not" in the recursive-descent parser;
+		// sized to exceed the runtime's default 1 GB stack limit (the workers keep the default)
+		{"deep-parens-1500000", []byte(rep("(", 1500000))}, {"not-2500000", []byte(rep("not ", 2500000))},
 	}
 	return x
 }
